@@ -105,6 +105,8 @@ def monitor(c):
 
 
 def run(ctx, out):
+    import families, random as _random
+    out.evaluations += families.noninit_tuple_family(out, PROP, _random.Random(ctx['seed']))
     out.rule = ('EXHAUSTIVE: 23 targets (7 scalars, None, list, variadic tuple, fixed tuple, set, mapping, struct dataclass, tuple-layout '
                 'dataclass, int/str/bool literals, int/str/bool enums) x 11 value kinds (22 representatives, including the numbers that == '
                 'identifies with literal and enum members) x 8 embedding contexts (top, list element, mapping value, '
